@@ -31,7 +31,7 @@ Lemma zsum_map_zero {A} (f : A -> Z) l :
   Forall (fun x => f x = 0) l -> zsum (map f l) = 0.
 Proof. induction 1 as [|x l Hx _ IH]; simpl; [reflexivity|]. rewrite Hx, IH. reflexivity. Qed.
 
-(* ------------------------------------------------------------------ (1) distance axioms *)
+(* ------------------------------------------------------------------ (1) pseudo-metric laws *)
 
 Lemma pathlen_sym dflt t a b : pathlen dflt t a b = pathlen dflt t b a.
 Proof.
@@ -244,9 +244,13 @@ Proof.
       rewrite Hpt. unfold contrib. change (contribs dflt a b []) with 0. lia.
 Qed.
 
-Theorem reroot_preserves : forall dflt t path x r a b,
+(** The node re-rooted at must not be a tip: re-rooting AT a tip loses it
+    ((A,B) re-rooted at A gives (B)A).  When the old root has a single child
+    and the new root is below it, the old root becomes a new tip, hence the
+    arity hypothesis. *)
+Theorem reroot_preserves_strong : forall dflt t path x r a b,
   subtree_at t path = Some x -> kids x <> [] ->
-  ((2 <= length (kids t))%nat \/ (path = [] /\ kids t <> [])) ->
+  ((2 <= length (kids t))%nat \/ path = []) ->
   NoDup (tips t) -> In a (tips t) -> In b (tips t) ->
   reroot_go t path None = Some r ->
   Permutation (tips r) (tips t) /\ pathlen dflt r a b = pathlen dflt t a b.
@@ -256,13 +260,25 @@ Proof.
   { cbn [upl]. change (tips_of []) with (@nil name). apply app_nil_r. }
   destruct (reroot_inv dflt a b path t None x r Hsub Hx) as [HP HL].
   - intros ks E. discriminate.
-  - intros _ Hp. destruct Hroot as [H2|[Hnil _]]; [exact H2|contradiction].
+  - intros _ Hp. destruct Hroot as [H2|Hnil]; [exact H2|contradiction].
   - rewrite HU. exact HN.
   - rewrite HU. exact Ha.
   - rewrite HU. exact Hb.
   - exact Hgo.
   - rewrite HU in HP. split; [exact HP|].
     rewrite HL. cbn [upl]. change (contribs dflt a b []) with 0. lia.
+Qed.
+
+Theorem reroot_preserves : forall dflt t path x r a b,
+  subtree_at t path = Some x -> kids x <> [] ->
+  ((2 <= length (kids t))%nat \/ (path = [] /\ kids t <> [])) ->
+  NoDup (tips t) -> In a (tips t) -> In b (tips t) ->
+  reroot_go t path None = Some r ->
+  Permutation (tips r) (tips t) /\ pathlen dflt r a b = pathlen dflt t a b.
+Proof.
+  intros dflt t path x r a b Hsub Hx Hroot.
+  apply (reroot_preserves_strong dflt t path x r a b Hsub Hx).
+  destruct Hroot as [H2|[Hnil _]]; [left; exact H2|right; exact Hnil].
 Qed.
 
 (** [find_path] returns the path of a node of the tree with that name *)
@@ -472,8 +488,10 @@ Proof.
   apply memb_In in Ha, Hb. rewrite Ha, Hb. reflexivity.
 Qed.
 
-Theorem unrooted_fixed_preserves : forall dflt t a b,
-  has_lens t = true -> NoDup (tips t) -> In a (tips t) -> In b (tips t) ->
+(** it is enough that, when the root has exactly two children, both carry a length *)
+Theorem unrooted_fixed_preserves_gen : forall dflt t a b,
+  (forall x y, kids t = [x; y] -> tlen x <> None /\ tlen y <> None) ->
+  NoDup (tips t) -> In a (tips t) -> In b (tips t) ->
   Permutation (tips (unrooted_fixed t)) (tips t) /\
   pathlen dflt (unrooted_fixed t) a b = pathlen dflt t a b.
 Proof.
@@ -488,8 +506,9 @@ Proof.
     { rewrite tips_node by discriminate. rewrite tips_of_cons. apply app_nil_r. }
     rewrite Ht in *. split.
     + rewrite tips_node by discriminate. rewrite <- Ex, <- (tips_kids x Hkx). reflexivity.
-    + rewrite !pathlen_node, contribs_cons. change (contribs dflt a b []) with 0.
-      unfold contrib. rewrite (edge_w_both dflt x a b Ha Hb), <- Ex, <- pathlen_kids. lia.
+    + rewrite <- Ex. rewrite !pathlen_node, (contribs_cons dflt a b x []).
+      change (contribs dflt a b []) with 0.
+      unfold contrib. rewrite (edge_w_both dflt x a b Ha Hb), <- pathlen_kids. lia.
   - destruct cs as [|z cs]; [|split; reflexivity].
     (* exactly two root children *)
     assert (Ht : tips (Node n l [x; y]) = tips x ++ tips y).
@@ -498,30 +517,49 @@ Proof.
     rewrite Ht in *.
     assert (Hsep : sep x a b = sep y a b).
     { unfold sep. apply xor_sides; assumption. }
-    unfold has_lens in HL. cbn [lens_ok forallb] in HL.
-    apply andb_true_iff in HL. destruct HL as [HLx HL].
-    apply andb_true_iff in HL. destruct HL as [HLy _].
-    apply andb_true_iff in HLx. destruct HLx as [HLx _].
-    apply andb_true_iff in HLy. destruct HLy as [HLy _].
-    destruct (tlen x) as [lx|] eqn:Elx; [|discriminate].
-    destruct (tlen y) as [ly|] eqn:Ely; [|discriminate].
+    destruct (HL x y eq_refl) as [HLx HLy].
+    destruct (tlen x) as [lx|] eqn:Elx; [|congruence].
+    destruct (tlen y) as [ly|] eqn:Ely; [|congruence].
     destruct (kids x) as [|x1 xs] eqn:Ex.
     + destruct (kids y) as [|y1 ys] eqn:Ey; [rewrite Ht; split; reflexivity|].
       assert (Hky : kids y <> []) by (rewrite Ey; discriminate).
       split.
       * rewrite tips_node by discriminate. rewrite tips_of_cons, tips_bump.
         rewrite <- Ey, <- (tips_kids y Hky). reflexivity.
-      * rewrite !pathlen_node, !contribs_cons. change (contribs dflt a b []) with 0.
+      * rewrite <- Ey. rewrite !pathlen_node.
+        rewrite (contribs_cons dflt a b _ (kids y)), (contribs_cons dflt a b x [y]),
+                (contribs_cons dflt a b y []).
+        change (contribs dflt a b []) with 0.
         rewrite <- Ely. rewrite (contrib_bump dflt a b y x ly lx Ely Elx (eq_sym Hsep)).
-        rewrite <- Ey, <- pathlen_kids. unfold contrib. lia.
+        rewrite <- pathlen_kids. unfold contrib. lia.
     + assert (Hkx : kids x <> []) by (rewrite Ex; discriminate).
       assert (Hne : (x1 :: xs) ++ [bump (Some lx) y] <> []) by discriminate.
       split.
-      * rewrite (tips_node _ _ _ Hne). rewrite tips_of_app, tips_of_cons, tips_bump.
+      * rewrite (tips_node _ _ _ Hne). rewrite <- Ex.
+        rewrite tips_of_app, (tips_of_cons _ []), tips_bump.
         change (tips_of []) with (@nil name). rewrite app_nil_r.
-        rewrite <- Ex, <- (tips_kids x Hkx). reflexivity.
-      * rewrite !pathlen_node, contribs_app, !contribs_cons.
+        rewrite <- (tips_kids x Hkx). reflexivity.
+      * rewrite <- Ex. rewrite !pathlen_node, contribs_app.
+        rewrite (contribs_cons dflt a b _ []), (contribs_cons dflt a b x [y]),
+                (contribs_cons dflt a b y []).
         change (contribs dflt a b []) with 0.
         rewrite <- Elx. rewrite (contrib_bump dflt a b x y lx ly Elx Ely Hsep).
-        rewrite <- Ex, <- pathlen_kids. unfold contrib. lia.
+        rewrite <- pathlen_kids. unfold contrib. lia.
+Qed.
+
+Theorem unrooted_fixed_preserves : forall dflt t a b,
+  has_lens t = true -> NoDup (tips t) -> In a (tips t) -> In b (tips t) ->
+  Permutation (tips (unrooted_fixed t)) (tips t) /\
+  pathlen dflt (unrooted_fixed t) a b = pathlen dflt t a b.
+Proof.
+  intros dflt t a b HL. apply unrooted_fixed_preserves_gen.
+  intros x y Hk. destruct t as [n l cs]. cbn [kids] in Hk. subst cs.
+  unfold has_lens in HL. cbn [lens_ok forallb] in HL.
+  apply andb_true_iff in HL. destruct HL as [HLx HL].
+  apply andb_true_iff in HL. destruct HL as [HLy _].
+  apply andb_true_iff in HLx. destruct HLx as [HLx _].
+  apply andb_true_iff in HLy. destruct HLy as [HLy _].
+  split.
+  - destruct (tlen x); [discriminate|discriminate].
+  - destruct (tlen y); [discriminate|discriminate].
 Qed.
